@@ -188,7 +188,7 @@ func cmdReplay(args []string) {
 			fmt.Fprintln(os.Stderr, err)
 			os.Exit(2)
 		}
-		v2 := hist.ReplayHeap(u, v.Path)
+		v2 := hist.ReplayHeap(u, v.Path, v.Tier)
 		if v2 == nil {
 			fmt.Println("NOT REPRODUCED: retained heap stays bounded on this state now")
 			os.Exit(0)
